@@ -535,8 +535,14 @@ func (w *Writers) Do(a string) error {
 			return err
 		}
 	case a[0] == 'L':
-		if err := w.Restart(int(a[1]-'0'), false); err != nil {
+		i := int(a[1] - '0')
+		before := w.SetKey(i)
+		if err := w.Restart(i, false); err != nil {
 			return err
+		}
+		if after := w.SetKey(i); after != before {
+			// kept for the oracle of the property that names "load from disk" as a delivery route (C01)
+			w.Scratch["reload-changed-set"] = fmt.Sprintf("replica %d held {%s} before its restart and holds {%s} after Load(-1)", i, before, after)
 		}
 	case a[0] == 'S':
 		i := int(a[1] - '0')
